@@ -548,6 +548,8 @@ def judge(rep, cs, solid, ent, replies):
     inp = dict(dom=cs["dom"], wrap=cs["wrap"], expression=f"{cs['wrap']} {solid.tokens()}", params=cs["params"],
                env=cs["envs"][r["env"]], point=[str(to_fr(a)) for a in r["p"]], point_float=r["p"], source=r["src"],
                call_row0=dict(point=[str(to_fr(a)) for a in ent["row0"]["p"]], env=cs["envs"][ent["row0"]["env"]]))
+    if r["src"] in SAMPLER_SOURCES:
+        inp["case"] = cs          # sampler-returned point: the replay re-runs the samplers of this case (seeded)
     rep.count("points")
     rep.count("src:" + r["src"].split("-")[0])
     if "error" in r:
@@ -639,7 +641,7 @@ def run(ctx, rep, cases=None):
                 "constructed edge / corner / arc points accepted by the boundary's membership test; non-trivial = at least one boundary "
                 "point was obtained and the expression is not a bare constant interval; distinct = distinct (expression, rows, points)")
     if cases is None:
-        cases = [make_case(ctx, i) for i in range(ctx.scale(115, 1300))]
+        cases = [make_case(ctx, i) for i in range(ctx.scale(105, 1300))]
     evaluate(ctx, rep, cases)
     opaque_streams(ctx, rep)
     h = rep.hist
@@ -661,6 +663,9 @@ def replay(ctx, obj):
     if inp.get("kind") == "polyhedron":
         mesh_case(rep, [[Fr(a) for a in v] for v in inp["vertices"]], inp["faces"], 0, 0, fixed=inp["point"])
         rep.case(dict(replay=inp), True)
+        return common.finish(ctx, rep, lean)
+    if inp.get("case") and inp.get("source") in SAMPLER_SOURCES:
+        evaluate(ctx, rep, [inp["case"]])
         return common.finish(ctx, rep, lean)
     # the failing row is replayed in one normal() call together with the first row of the original call (row pairing matters)
     r0 = inp.get("call_row0") or dict(point=inp["point"], env=inp["env"])
